@@ -383,7 +383,9 @@ def oracle_c06(c):
                                         {"id": i, "step": t, "service": s, "got": core.fstr(got), "want": core.fstr(want)}))
                             break
                 elif declared[t] > 0 and abs(after[t] - declared[t]) > tol:
-                    bad.append(("KNOWN:zero-output-step", {"id": i, "step": t, "declared": core.fstr(declared[t])}))
+                    # the recorded finding: at such a step the auxiliary energy is dropped (every share is 0); any other amount is new
+                    bad.append(("KNOWN:zero-output-step" if abs(after[t]) <= tol else "auxiliary energy not conserved at a step without output energy",
+                                {"id": i, "step": t, "declared": core.fstr(declared[t]), "after": core.fstr(after[t])}))
                     break
     # other systems' components untouched is covered by oracle_c05 (a); auxiliaries of systems without AUX lines: none appear
     for e in norm:
